@@ -1,13 +1,13 @@
 SPECIFICATION Spec
 CONSTANTS MaxItems = 2
- MaxSub = 1
- MaxBlocks = 1
- MaxDepth = 1
- MaxLeaves = 99
- Lean = FALSE
+ MaxSub = 2
+ MaxBlocks = 3
+ MaxDepth = 2
+ MaxLeaves = 3
+ Lean = TRUE
  Budget = 1
- IdOffs <- IdOffs3
- Rules = {"assume", "substitution", "sorry", "subproof"}
+ IdOffs <- IdOffs1
+ Rules = {"assume", "substitution", "subproof"}
  Emit = TRUE
 INVARIANT RefSound
 INVARIANT RefGapFree
